@@ -45,6 +45,7 @@ def _pred(fi):
 
 
 def run(rep):
+    rep.run(relabel_in_place)
     rep.run(predicate)
     rep.run(iterative)
     rep.run(fit)
@@ -266,6 +267,39 @@ def incremental(rep):
     rep.ob("O13.2", "SHAPE", fi, ok, st, "candidates are the representatives with the same pre-grouping attribute")
     rets = returns_of(fi.node)
     rep.ob("O13.2", "SHAPE", fi, bool(rets) and norm(rets[-1].value) == f"({DATA}, {TEMPL})", rets[-1] if rets else "return", "the classified item and the (possibly extended) representatives are returned")
+
+
+def relabel_in_place(rep):
+    """class ids are written once per item: a loop that selects items by their current `class` and overwrites that same field while an outer loop
+    still has groups to process mixes two id spaces (provisional batch-local ids and library ids) - an item already renumbered to library class g is
+    caught again when the provisional group g comes up"""
+    n = 0
+    fis = [f for q, f in rep.repo.module(BC).funcs.items() if q.startswith("BatchCluster.")]
+    for fi in fis:
+        pm = parent_map(fi.node)
+        for st in walk_local(fi.node):
+            if not (isinstance(st, ast.Assign) and len(st.targets) == 1 and isinstance(st.targets[0], ast.Subscript) and is_const(st.targets[0].slice, "class")):
+                continue
+            tgt = norm(st.targets[0])
+            gs = guards_of(pm, st, fi.node)
+            sel = [t for t, sense in gs if sense and isinstance(t, ast.Compare) and len(t.ops) == 1 and isinstance(t.ops[0], ast.Eq)
+                   and tgt in (norm(t.left), norm(t.comparators[0]))]
+            if not sel:
+                continue
+            other = sel[0].comparators[0] if norm(sel[0].left) == tgt else sel[0].left
+            if norm(st.value) == norm(other):
+                continue
+            loops, cur = [], pm.get(st)
+            while cur is not None and cur is not fi.node:
+                if isinstance(cur, (ast.For, ast.While)):
+                    loops.append(cur)
+                cur = pm.get(cur)
+            n += 1
+            if len(loops) >= 2:
+                rep.ob("O13.2", "SHAPE", fi, False, st, f"`{tgt}` is overwritten for the items selected by `{norm(sel[0])}` while the outer loop still compares that field for its "
+                       "remaining groups: old and new ids share one number space, items of different groups are merged", node=st)
+    if not n:
+        rep.ob("O13.2", "SHAPE", f"{BC}:BatchCluster", True, f"{len(fis)} methods", "no method renumbers classes in place while still selecting items by their class")
 
 
 MUTANTS = [
